@@ -76,6 +76,10 @@ FIXED = [
     ("hendrix", dict(max_useful_life=2, max_order_quantity_a=3, max_order_quantity_b=3)),
     ("hendrix", dict(max_useful_life=1, max_order_quantity_a=10, max_order_quantity_b=10)),
     ("mirjalili", dict(max_useful_life=3, max_order_quantity=3, max_demand=5)),
+    # order quantities beyond 127 (a space stored in a narrower integer type would wrap)
+    ("de_moor", dict(max_useful_life=1, lead_time=1, max_order_quantity=140, max_demand=3)),
+    ("mirjalili", dict(max_useful_life=1, max_order_quantity=130, max_demand=2,
+                       useful_life_at_arrival_distribution_c_0=[], useful_life_at_arrival_distribution_c_1=[])),
     ("mirjalili", dict(max_useful_life=1, max_order_quantity=4, max_demand=6,
                        useful_life_at_arrival_distribution_c_0=[], useful_life_at_arrival_distribution_c_1=[])),
 ]
